@@ -11,7 +11,7 @@
    operations under any schedule.  The theorems hold for EVERY program family accepted by the
    boolean [wf_prog]; that the service's own code is such a family is [C12_blockrelay_wf], computed
    against the graph the translator extracts from the source on every run. *)
-From Verif Require Import Lib.Base Lib.Sched Lib.Lockset Model.C12_ConfigLock Proofs.C12 Proofs.C12_Data Gen.C17_Extracted.
+From Verif Require Import Lib.Base Lib.Sched Lib.Lockset Model.C12_ConfigLock Proofs.C12 Proofs.C12_Data Proofs.C12_ReadOnly Gen.C17_Extracted.
 
 (* ------------------------------------------------------------------------------------------- *)
 (* 1. Keeps the last good configuration                                                         *)
@@ -423,3 +423,39 @@ Proof.
       rewrite <- (firstn_all ex_acts). apply Hall. apply in_seq. lia.
   - vm_compute. auto.
 Qed.
+
+(* ------------------------------------------------------------------------------------------- *)
+(* 18. Requests only read                                                                        *)
+
+(* The active configuration changes at exactly one kind of step of the scenario machine: the MWrite
+   of a refresh, made under the write lock.  Lookups, auctions and registration rounds have no such
+   step; any step that is not an MWrite leaves the configuration as it was, and so does any run made
+   of such steps, in any interleaving and with any number of threads.  This is why any number of
+   requests may be inside the shared read lock at once (and the registration round may work on its
+   snapshot with no lock at all).  The implementation side of it -- nothing on the lookup path
+   writes to the configuration object or to package-level state, and overlapping first lookups on a
+   freshly installed document do not bring the process down -- is checked by the harness (source
+   scan: [c_reader_writes]; bursts in a child process: [c_crashed]). *)
+Theorem C12_requests_only_read :
+  (forall (pre : bool) (sp : spawn), sp_kind sp <> KRefresh -> ~ In MWrite (program pre sp)) /\
+  (forall (url : bool) (mprog : list mstep) (g : prog) (x : xstate) (i : nat) (x' : xstate),
+      advance url mprog g x i = Some x' -> thread_mstep mprog x i <> Some MWrite -> x_cfg x' = x_cfg x) /\
+  (forall (url : bool) (mprog : list mstep) (g : prog) (acts : list xact) (s : gst),
+      (forall n i, nth_error acts n = Some (XAdv i) ->
+                   thread_mstep mprog (g_x (grun url mprog g (firstn n acts) s)) i <> Some MWrite) ->
+      x_cfg (g_x (grun url mprog g acts s)) = x_cfg (g_x s)).
+Proof.
+  split; [exact program_no_write|]. split; [exact advance_keeps_cfg|exact grun_keeps_cfg].
+Qed.
+Print Assumptions C12_requests_only_read.
+
+(* a burst: a refresh held up by an auction inside the read lock, three requests queued behind the
+   announced writer; once the gate opens the writer installs the document and all three answer from it *)
+Example C12_ex_burst_behind_writer :
+  predict false true (Some {| d_id := 0; d_bad := []; d_relay := false |})
+    [Spawn {| sp_kind := KAuction; sp_v := 4; sp_gate := true; sp_ref := ex_rf FErr |};
+     Spawn (ex_sp KRefresh 0 (FOk ex_d1));
+     Spawn (ex_sp KLookup 1 FErr); Spawn (ex_sp KAuction 2 FErr); Spawn (ex_sp KLookup 3 FErr); Spawn (ex_sp KReg 0 FErr);
+     Release 0]
+  = ([(true, RNoRelays); (true, RDone); (true, RFee 1); (true, RFee 1); (true, RErr); (true, RDone)], true, Some ex_d1).
+Proof. vm_compute. reflexivity. Qed.
